@@ -370,6 +370,9 @@ def call_attr(ex, recv, name, pos, kw, st, fr, e):
                 return [(vnone(), st)]      # object.__init__
             raise Unsupported(f'super().{name} not found')
         self_v = st.loc.get(fr.fi.node.args.args[0].arg)
+        c_ = ex.specs.contract_for(fi, fr.self_cls)
+        if c_ is not None and c_.modular and fi.qualname not in ex.specs.inline_always:
+            return contract_call(ex, c_, fi, self_v, pos, kw, st, fr)
         return inline(ex, fi, fr.self_cls, self_v, pos, kw, st, fr)
     if isinstance(recv, ModuleRef):
         return call_module(ex, recv.name + '.' + name, pos, kw, st, fr, e)
